@@ -8,7 +8,16 @@
 EXTENDS MatrixSpace, TLC, Json, IOUtils
 Events == JsonDeserialize(IOEnv.TRACE_FILE)
 VARIABLE l
-LabelOfE(e) == Label(\E k \in 1..Len(e.gens) : ~IsReal(e.gens[k]), e.field, \A k \in 1..Len(e.gens) : IsSym(e.gens[k]), \A k \in 1..Len(e.gens) : IsHerm(e.gens[k]))
+\* nearly structured generators: the call was made with gens[k] + 2^-e pert[k] (gens structured, pert anti-structured, 20 <= e <= 40).
+\* Structure flags are those of gens + pert (a non-zero anti-structured part breaks the structure whatever its size), and the dimension of
+\* the span is the rank of the stacked pairs (direct sum of the structured and the anti-structured matrices).
+HasPert(e) == e.pert # <<>>
+Full(e) == IF HasPert(e) THEN [k \in 1..Len(e.gens) |-> MAdd(e.gens[k], e.pert[k])] ELSE e.gens
+LabelOfE(e) == LET g == Full(e) IN Label(\E k \in 1..Len(g) : ~IsReal(g[k]), e.field, \A k \in 1..Len(g) : IsSym(g[k]), \A k \in 1..Len(g) : IsHerm(g[k]))
+PertShapeOK(e) == HasPert(e) => /\ e.e >= 20 /\ e.e <= 40 /\ Len(e.pert) = Len(e.gens)
+                                /\ \A k \in 1..Len(e.gens) : \/ (IsSym(e.gens[k]) /\ e.pert[k] = MScale(-1, [j \in 1..Len(e.pert[k]) |-> [i \in 1..Len(e.pert[k]) |-> e.pert[k][i][j]]]))
+                                                               \/ (IsHerm(e.gens[k]) /\ e.pert[k] = MScale(-1, [j \in 1..Len(e.pert[k]) |-> [i \in 1..Len(e.pert[k]) |-> GConj(e.pert[k][i][j])]]))
+SpanDimE(lb, e) == IF HasPert(e) THEN SpanDim(lb, [k \in 1..Len(e.gens) |-> e.gens[k] \o e.pert[k]]) ELSE SpanDim(lb, e.gens)
 \* ---- the returned frames, rounded to integers at scale e.scale (Gaussian integers <<re, im>>).  Inner product of the
 \*      structured space: Tr(A^dagger B) over C, its real part over R.  All comparisons carry the rounding tolerance e.tol.
 IP(A, B) == GSum([k \in 1..Len(A) |-> GMul(GConj(A[k]), B[k])])
@@ -37,7 +46,8 @@ FrameOK(e, lb) == \E m \in {Len(e.gens[1])} : \E n \in {Len(e.gens[1][1])} :
    /\ \A i \in 1..Len(e.basis) : ShapeOK(e.basis[i], lb, m, n)
    /\ \A i \in 1..Len(e.compl) : ShapeOK(e.compl[i], lb, m, n)
    /\ \E Bs \in {TLCEval([i \in 1..Len(e.basis) |-> AsVec(e.basis[i], lb, m, n)])} : \E Cs \in {TLCEval([i \in 1..Len(e.compl) |-> AsVec(e.compl[i], lb, m, n)])} : FrameOK2(e, lb, Bs, Cs)
-BasisOK(e) == \E lb \in {LabelOfE(e)} : \E dm \in {SpanDim(lb, e.gens)} :
+BasisOK(e) == \E lb \in {LabelOfE(e)} : \E dm \in {SpanDimE(lb, e)} :
+   /\ PertShapeOK(e)
    /\ e.label = lb /\ e.nbasis = dm /\ e.nbasis + e.ncompl = Ambient(lb, Len(e.gens[1]), Len(e.gens[1][1]))
    /\ FrameOK(e, lb)
 \* planted: the event carries P and the hidden generators; TLC re-establishes the provenance before judging the verdict
@@ -46,7 +56,7 @@ CertOK(e) == /\ MAdd(e.B[3], MScale(-1, e.B[2])) = e.P /\ MatRank(e.P) < e.r /\ 
 \* name of the first failing clause (only evaluated for rejected events)
 Why(e) == IF e.op # "basis" THEN "certificate" ELSE
    LET lb == LabelOfE(e) IN
-   IF e.label # lb THEN "label" ELSE IF e.nbasis # SpanDim(lb, e.gens) THEN "dimension-of-span"
+   IF e.label # lb THEN "label" ELSE IF e.nbasis # SpanDimE(lb, e) THEN "dimension-of-span"
    ELSE IF e.nbasis + e.ncompl # Ambient(lb, Len(e.gens[1]), Len(e.gens[1][1])) THEN "complement-dimension" ELSE "frame (norm / orthogonality / complement / span)"
 Valid(e) == CASE e.op = "basis" -> BasisOK(e) [] e.op = "cert" -> CertOK(e) [] OTHER -> FALSE
 Init == l = 1 /\ TLCSet(1, 0)
